@@ -79,6 +79,8 @@ pub enum Op {
     NewOnB,
     Take { c: usize },
     Borrow { c: usize, sets: Vec<(usize, usize)> },
+    /// the same, but the borrow ends by a panic unwinding through the guard (caught outside)
+    BorrowUnwind { c: usize, sets: Vec<(usize, usize)> },
     DropSecond,
 }
 
@@ -106,6 +108,8 @@ fn ops_for(state: &State) -> Vec<Op> {
         v.push(Op::Borrow { c, sets: vec![(1, 0), (1, 2)] });
         v.push(Op::Borrow { c, sets: vec![(2, 1), (3, 1)] });
         v.push(Op::Borrow { c, sets: vec![(2, 2), (0, 0)] });
+        v.push(Op::BorrowUnwind { c, sets: vec![(0, 1)] });
+        v.push(Op::BorrowUnwind { c, sets: vec![(1, 0), (2, 1)] });
     }
     if state.len() < 2 {
         v.push(Op::NewOnB);
@@ -282,6 +286,37 @@ fn step(w: &World, real: &mut Vec<ExecutionContext<'static>>, st: &mut State, op
                 problems.push("borrow_with lost its user data".into());
             }
             drop(guard);
+        }
+        Op::BorrowUnwind { c, sets } => {
+            // what was written through the guard before the panic is written through all the same
+            let mut wants = Vec::new();
+            for (f, v) in sets {
+                let val = value_pool(*f)[*v].clone();
+                wants.push((set_model(&mut st[*c], *f, &val, true), *f, val));
+            }
+            let ctx = &mut real[*c];
+            let r = std::panic::catch_unwind(std::panic::AssertUnwindSafe(|| {
+                let mut guard = ctx.borrow_with(7u8);
+                let mut got = Vec::new();
+                for (_, f, val) in &wants {
+                    got.push(guard.set_field_value_from_name(FIELDS[*f], val.to_engine()).map(|o| o.map(|v| V::from_engine(&v))).map_err(|_| ()));
+                }
+                // unwinds through the guard without invoking the panic hook
+                std::panic::resume_unwind(Box::new(got));
+            }));
+            match r {
+                Ok(()) => problems.push("the unwinding borrow did not unwind".into()),
+                Err(payload) => match payload.downcast::<Vec<Result<Option<V>, ()>>>() {
+                    Ok(got) => {
+                        for (g, (w, f, val)) in got.iter().zip(&wants) {
+                            if g != w {
+                                problems.push(format!("(inside an unwinding borrow_with) set {} = {}: engine {:?}, reference {:?}", FIELDS[*f], val.short(), g.as_ref().map(|o| o.as_ref().map(|v| v.short())), w.as_ref().map(|o| o.as_ref().map(|v| v.short()))));
+                            }
+                        }
+                    }
+                    Err(_) => problems.push("an unexpected panic inside the borrow".into()),
+                },
+            }
         }
         Op::DropSecond => {
             st.pop();
